@@ -1,6 +1,7 @@
 /-
 Periodic transmissions (C17): `SyncProducer.start/stop` (canopen/sync.py), `PdoMap.start/stop/update`,
-`PdoVariable.set_data → update`, `PdoBase.stop` (canopen/pdo/base.py), `NmtSlave.start_heartbeat/
+`PdoVariable.set_data → update`, `PdoMap.on_message` (the period measured between two receptions),
+`PdoBase.stop` (canopen/pdo/base.py), the public `period` attributes of `SyncProducer` and `PdoMap`, `NmtSlave.start_heartbeat/
 stop_heartbeat/update_heartbeat/on_write/send_command/on_command/state setter`, `NmtMaster.start_/
 stop_node_guarding` (canopen/nmt.py), `Network.send_periodic/disconnect`, `PeriodicMessageTask`
 (canopen/network.py), `LocalNode.set_data` for object 0x1017 (canopen/node/local.py).
@@ -79,6 +80,8 @@ structure PdoF where
   nvars : Nat
   data : Bytes
   period : Option Nat
+  /-- `PdoMap.timestamp`: time (µs) of the last frame `on_message` accepted -/
+  stamp : Option Nat := none
 deriving Repr
 
 /-- the attributes of an `NmtSlave` and the value its node holds for object 0x1017
@@ -96,6 +99,9 @@ structure State where
   syncPeriod : Option Nat
   pdo : Nat → Nat → PdoF
   slave : Nat → SlaveF
+  /-- the clock of the environment (µs): the time stamp the next received frame carries; it only
+      moves forward -/
+  now : Nat := 0
 
 /-- what is fixed during a history -/
 structure Cfg where
@@ -213,6 +219,9 @@ def syncStartUnrepaired (c : Cfg) (s : State) (p : Option Nat) : State × Bool :
 /-- `SyncProducer.stop()` -/
 def syncStop (s : State) : State := stopKeep s .sync
 
+/-- `network.sync.period = p` (the attribute is public; `start()` without argument reads it) -/
+def syncSetPeriod (s : State) (p : Option Nat) : State := { s with syncPeriod := p }
+
 /-! ### canopen/pdo/base.py -/
 
 /-- `PdoMap.start(period)` -/
@@ -225,6 +234,28 @@ def pdoStart (s : State) (n k : Nat) (p : Option Nat) : State × Bool :=
 
 /-- `PdoMap.stop()` -/
 def pdoStop (s : State) (n k : Nat) : State := stopClear s (.pdo n k)
+
+/-- `pdo.period = p` ("Set explicitly or using the `start()` method") -/
+def pdoSetPeriod (s : State) (n k : Nat) (p : Option Nat) : State :=
+  setPdo s n k { s.pdo n k with period := p }
+
+/-- what `PdoMap.on_message` stores for a frame stamped `t` when the map is not transmitting:
+    the payload, the time since the previous accepted frame as `period` (kept when there was none),
+    and the stamp -/
+def received (f : PdoF) (t : Nat) (d : Bytes) : PdoF :=
+  { f with data := d,
+           period := match f.stamp with
+             | some t0 => some (t - t0)
+             | none => f.period,
+           stamp := some t }
+
+/-- `PdoMap.on_message(cob_id, d, now + dt)`: a frame of this map arrives `dt` µs after the previous
+    event of the environment; ignored while the map itself transmits (`self._task is not None`) -/
+def pdoReceive (s : State) (n k dt : Nat) (d : Bytes) : State :=
+  let s1 := { s with now := s.now + dt }
+  match s1.slots (.pdo n k) with
+  | some _ => s1
+  | none => setPdo s1 n k (received (s1.pdo n k) s1.now d)
 
 /-- `pdo.data = bytearray(d); pdo.update()` -/
 def pdoUpdate (c : Cfg) (s : State) (n k : Nat) (d : Bytes) : State :=
@@ -365,6 +396,9 @@ def disconnect (c : Cfg) (s : State) : State :=
 inductive Op where
   | syncStart (p : Option Nat)
   | syncStop
+  | syncSetPeriod (p : Option Nat)
+  | pdoSetPeriod (n k : Nat) (p : Option Nat)
+  | pdoReceive (n k dt : Nat) (d : Bytes)
   | pdoStart (n k : Nat) (p : Option Nat)
   | pdoStop (n k : Nat)
   | pdoUpdate (n k : Nat) (d : Bytes)
@@ -387,7 +421,8 @@ deriving DecidableEq, Repr
 /-- the producer an operation addresses (operations on objects that do not exist in the network
     cannot be written down by a caller; they are rejected without effect) -/
 def Op.target : Op → Option Owner
-  | .pdoStart n k _ | .pdoStop n k | .pdoUpdate n k _ | .pdoSetByte n k _ _ => some (.pdo n k)
+  | .pdoStart n k _ | .pdoStop n k | .pdoUpdate n k _ | .pdoSetByte n k _ _ | .pdoSetPeriod n k _
+  | .pdoReceive n k _ _ => some (.pdo n k)
   | .hbStart n _ | .hbStop n | .hbUpdate n | .hbWrite n _ | .hbSdoWrite n _ | .onWrite n _ _
   | .sendCommand n _ | .setState n _ => some (.hb n)
   | .guardStart n _ | .guardStop n => some (.guard n)
@@ -403,6 +438,9 @@ def Op.wellAddressed (c : Cfg) (op : Op) : Bool :=
 def exec (c : Cfg) (s : State) : Op → State × Bool
   | .syncStart p => syncStart c s p
   | .syncStop => (syncStop s, true)
+  | .syncSetPeriod p => (syncSetPeriod s p, true)
+  | .pdoSetPeriod n k p => (pdoSetPeriod s n k p, true)
+  | .pdoReceive n k dt d => (pdoReceive s n k dt d, true)
   | .pdoStart n k p => pdoStart s n k p
   | .pdoStop n k => (pdoStop s n k, true)
   | .pdoUpdate n k d => (pdoUpdate c s n k d, true)
